@@ -651,3 +651,86 @@ _wdr = contract(DETC + 'write_detected_records', props=['C06'],
 _wdr.abstraction = ('in-memory part only (no output file, no interleaving); frames are row-level stubs: 1..3 three-valued flag '
                     'columns over any number of rows, element-wise arithmetic and comparison, row counts of masks '
                     'uninterpreted (A-pandas)')
+
+
+# ---------------------------------------------------------------------------
+# detection_field and pandas_coarse_type themselves (the detectors above use them through their contracts)
+# ---------------------------------------------------------------------------
+
+def _typename(t):
+    n = getattr(t, 'name', None) or getattr(getattr(t, 't', None), '__name__', None) or repr(t)
+    return 'bool' if 'bool' in str(n) else str(n)
+
+
+def _df_entry(it, senv):
+    nulls = it.fresh(T.nat, 'null_rows')
+    it.ghost['nulls'] = nulls
+    col = SObj('Series', {'__open__': False, 'what': ('values', 'c')}, label='column')
+    isn = SObj('Series', {'__open__': False}, label='isnull')
+    isn.methods['sum'] = Builtin(lambda it2, self: nulls, 'sum')
+    col.methods['isnull'] = Builtin(lambda it2, self: isn, 'isnull')
+    expr = SObj('mask', {'__open__': False, 'desc': ('the-mask',)}, label='expr')
+    expr.methods['astype'] = Builtin(lambda it2, self, t: ('astype', self.attrs['desc'], t if isinstance(t, str) else _typename(t)), 'astype')
+    senv['column'], senv['expr'] = col, expr
+    np_ = SObj('module', {'__open__': False, 'nan': 'NaN'}, label='np')
+    np_.methods['where'] = Builtin(lambda it2, self, c, a, b: ('where', c, a, b), 'np.where')
+    pd_ = SObj('module', {'__open__': False}, label='pd')
+    pd_.methods['isnull'] = Builtin(lambda it2, self, c: ('isnull', c.attrs['what']), 'pd.isnull')
+    it.spec_env['np'], it.spec_env['pd'] = np_, pd_
+
+
+@specfn
+def flags_of_the_mask_nulls_as_default(it, result, default):
+    """No null rows: the mask as booleans.  Otherwise: the mask where the column has a value, `default` (NaN when none
+    is given) where it is null."""
+    if it.ghost.get('nulls') is None:
+        return True          # at a call site: the clause is about this function's own body
+    nulls = it.ghost['nulls'].z
+    plain = result == ('astype', ('the-mask',), 'bool')
+    null = 'NaN' if default is None else default
+    mixed = (isinstance(result, tuple) and len(result) == 4 and result[0] == 'where'
+             and result[1] == ('isnull', ('values', 'c')) and result[3] == ('astype', ('the-mask',), 'O')
+             and (result[2] is null or result[2] == null))
+    return SBool(z3.If(nulls == 0, z3.BoolVal(bool(plain)), z3.BoolVal(bool(mixed))))
+
+
+contract(PD + 'detection_field', props=['C06'],
+         params=dict(column=None, expr=None, default=T.union(T.const(None), T.const(True), T.const(False))),
+         on_entry=_df_entry, spec_env=dict(ENV, flags_of_the_mask_nulls_as_default=flags_of_the_mask_nulls_as_default),
+         result=T.none,
+         ensures=[('the-mask-on-records-with-a-value-the-default-on-null-records',
+                   'flags_of_the_mask_nulls_as_default(result, default)')])
+REGISTRY[PD + 'detection_field'].effects = _detection_field_effect
+REGISTRY[PD + 'detection_field'].defaults = {'default': None}
+
+
+def _ct_register():
+    def tdda_type(it, env):
+        k = it.path.choose([True] * 8)
+        t = ('bool', 'int', 'real', 'string', 'date', 'null', 'other', 'weird')[k]
+        it.ghost['tdda_type'] = t
+        return t
+    return Contract(PD + 'pandas_tdda_type', params=dict(x=None), effects=tdda_type, result=T.none, assumed=True,
+                    name='pandas_tdda_type(any)', trusted_note='pandas_tdda_type(x) is one of the tdda type names')
+
+
+class _Coarse(Contract):
+    def verify(self, registry=None, quick=False):
+        reg = dict(REGISTRY if registry is None else registry)
+        reg[PD + 'pandas_tdda_type'] = _ct_register()
+        return Contract.verify(self, reg, quick)
+
+
+@specfn
+def coarse_rule(it, result):
+    t = it.ghost.get('tdda_type')
+    if t is None:
+        return True          # at a call site (the detectors): the clause is about this function's own body
+    return result == ('number' if t in ('bool', 'int', 'real') else t)
+
+
+_cc = _Coarse(PD + 'pandas_coarse_type', props=['C06', 'C02'], params=dict(x=T.opaque),
+              spec_env=dict(ENV, coarse_rule=coarse_rule), result=T.none,
+              ensures=[('bool-int-real-are-number-everything-else-is-itself', 'coarse_rule(result)')])
+_cc.effects = _coarse_effect
+REGISTRY[_cc.ident] = _cc
